@@ -142,6 +142,17 @@ class OperatorGraph(DiGraph):
             return self.nodes
 
 
+def _dtype_follows_value(var: dict, value) -> None:
+    """A variable declared with an integer default (`tau: 10`) that receives a non-integral value (node-level value,
+    `update_var`, `apply(node_values=...)`) becomes a float variable instead of truncating the value."""
+    if var.get("dtype") == "int":
+        v = _np.asarray(value)
+        if v.dtype.kind == "c":
+            var["dtype"] = "complex"
+        elif v.dtype.kind == "f" and _np.any(v != _np.floor(v)):
+            var["dtype"] = "float"
+
+
 class VectorizedOperatorGraph(DiGraph):
     """Alternate version of `OperatorGraph` that is produced during vectorization. Contents of this version are not
     particularly protected and the instance is not cached."""
@@ -175,6 +186,7 @@ class VectorizedOperatorGraph(DiGraph):
                         op_vars[var_key]["vtype"] = "input"
                     else:
                         op_vars[var_key]["value"] = value if type(value) is list else [value]
+                    _dtype_follows_value(op_vars[var_key], value)
 
             self.add_edges_from(op_graph.edges)
 
@@ -253,6 +265,8 @@ class VectorizedOperatorGraph(DiGraph):
                     var["value"].append(value)
                 else:
                     var["value"].extend(value)
+
+                _dtype_follows_value(var, value)
 
                 # also recompute shape
                 old_shape = var["shape"]
